@@ -190,4 +190,21 @@ theorem dealer_requeue_at_the_back_reorders :
       [.send 1, .send 2, .send 3, .procPop, .procRoute, .sessionTake, .procPop, .procRoute, .sessionTake]).delivered = [1, 3] := by
   decide
 
+/-- nothing accepted is stranded: from EVERY reachable state of the DEALER (any pipe capacity, any SNDHWM, any history of
+sends, processor steps and session takes) there is a continuation without further sends - its length is exactly the work
+left (3 per pending message, 2 for the one in the processor's hand, 1 per message in the pipe) - after which the wire
+carries exactly the acceptance log; the backlog counter can never keep a message in the queue for ever -/
+theorem dealer_accepted_messages_can_always_be_drained (cap hwm : Nat) (evs : List DealerEv) :
+    let d := Dealer.run currentDealerCfg { cap := cap, hwm := hwm } evs
+    ∃ more : List DealerEv, (∀ e ∈ more, e.isSend = false) ∧ more.length = d.todo
+      ∧ (Dealer.run currentDealerCfg d more).delivered = d.accepted := by
+  rw [dealer_source_shape]
+  have h := Dealer.run_inv _ evs (Dealer.inv_init cap hwm)
+  obtain ⟨more, h1, h2, h3, _⟩ := Dealer.drain_exists _ _ h rfl
+  exact ⟨more, h1, h2, h3⟩
+
+/-- non-vacuity: a state with a full pipe, a message in the processor's hand and two pending has work left -/
+example : (Dealer.run currentDealerCfg { cap := 1, hwm := 4 } [.send 1, .send 2, .send 3, .send 4, .procPop]).todo = 9 := by
+  decide
+
 end Rzmq.C01
